@@ -13,6 +13,7 @@ Section Inv.
   Variable finish : nat -> bool.
   Variable pre : nat -> list utxo.
   Variable start : nat -> bool.
+  Variable quits : nat -> nat -> bool.
   Variable can_sign : nat -> list utxo -> bool.
   Hypothesis pre_nd : forall b, NoDup (map uid (pre b)).
   (* what C03_select_sound proves of the real chooser *)
@@ -114,11 +115,31 @@ Section Inv.
         * assumption.
   Qed.
 
+  (* a cancelled build goes to Abort with what it holds; nothing else changes *)
+  Lemma abort_from st b :
+    Inv st -> b < n -> crit (ph (bs st b)) = false -> finished (ph (bs st b)) = false ->
+    Inv (mkS (wal st) (lock st) (upd (bs st) b (mkB PAbort (rnd (bs st b)) [] [] (held (bs st b))))).
+  Proof.
+    intros I Hb Hc Hf. constructor; simpl.
+    - apply (I_nodup st I).
+    - intros i. split_b b i; simpl; [discriminate | apply (I_crit st I)].
+    - intros i u. split_b b i; simpl; apply (I_held st I).
+    - intros i. split_b b i; simpl; apply (I_held_nd st I).
+    - intros b1 b2 u1 u2 Hne. split_b b b1; split_b b b2; simpl; try congruence; apply (I_disj st I); assumption.
+    - intros i. split_b b i; simpl; [discriminate | apply (I_snap st I)].
+    - intros i. split_b b i; simpl; [discriminate | apply (I_sel st I)].
+    - intros u Hu. destruct (I_res st I u Hu) as [i Hi]. exists i. split_b b i; simpl; assumption.
+    - intros i Hi. rewrite upd_other by lia. apply (I_out st I); assumption.
+    - intros i. split_b b i; simpl; [discriminate | apply (I_fin st I)].
+    - intros Hall. apply (I_same st I). intros i. specialize (Hall i). split_b b i; simpl in *; [|assumption].
+      intro E. rewrite E in Hf. discriminate.
+  Qed.
+
   (* a build's pre-chosen wallet outputs are unreserved at the moment it reserves them *)
   Definition fresh (st : state) (b : nat) : Prop :=
     ph (bs st b) = PPre -> forall u, In u (pre b) -> In (u, false) (wal st).
 
-  Lemma step_inv st b : Inv st -> fresh st b -> Inv (step true true n choose more finish pre start can_sign st b).
+  Lemma step_inv st b : Inv st -> fresh st b -> Inv (step true true n choose more finish pre start quits can_sign st b).
   Proof.
     intros I Hfresh. unfold step. destruct (n <=? b) eqn:Hn; [assumption|]. apply Nat.leb_gt in Hn.
     destruct (ph (bs st b)) eqn:P.
@@ -198,6 +219,7 @@ Section Inv.
       + intros i. split_b b i; simpl; [congruence | apply (I_fin st I)].
       + intros Hall. apply (I_same st I). intros i. specialize (Hall i). split_b b i; simpl in *; [congruence | assumption].
     - (* Lock *)
+      destruct (quits b (rnd (bs st b))); [apply abort_from; try assumption; rewrite P; reflexivity|].
       destruct (lock st) eqn:L; [assumption|].
       constructor; simpl.
       + apply (I_nodup st I).
@@ -320,6 +342,7 @@ Section Inv.
       + intros u Hu. apply in_set_reserved.
         destruct (in_dec N.eq_dec (uid u) (map uid (held (bs st b)))); [right; eauto | left; auto].
     - (* Finish *)
+      destruct (quits b (rnd (bs st b))); [apply abort_from; try assumption; rewrite P; reflexivity|].
       destruct (finish b).
       + apply drop_held_inv; auto; try (rewrite P; reflexivity).
         * apply (NoDup_map_filter (fun e : utxo * bool => uid (fst e))). apply (I_nodup st I).
@@ -340,11 +363,11 @@ Section Inv.
   Fixpoint fresh_sched (sched : list nat) (st : state) : Prop :=
     match sched with
     | [] => True
-    | b :: s => fresh st b /\ fresh_sched s (step true true n choose more finish pre start can_sign st b)
+    | b :: s => fresh st b /\ fresh_sched s (step true true n choose more finish pre start quits can_sign st b)
     end.
 
   Lemma run_inv sched : forall st, Inv st -> fresh_sched sched st ->
-    Inv (run true true n choose more finish pre start can_sign sched st).
+    Inv (run true true n choose more finish pre start quits can_sign sched st).
   Proof.
     induction sched as [|b s IH]; intros st I F; simpl; [assumption|]. destruct F as [F1 F2].
     apply IH; [apply step_inv; assumption | assumption].
@@ -362,7 +385,7 @@ Section Inv.
 
   Theorem exclusive sched :
     fresh_sched sched (init w0) ->
-    let st := run true true n choose more finish pre start can_sign sched (init w0) in
+    let st := run true true n choose more finish pre start quits can_sign sched (init w0) in
     (forall b1 b2 i, b1 <> b2 -> In i (held_ids st b1) -> In i (held_ids st b2) -> False) /\
     (forall b, NoDup (held_ids st b)) /\
     (forall i, In i (reserved_ids (wal st)) <-> exists b, b < n /\ In i (held_ids st b)) /\
@@ -396,7 +419,7 @@ Section Inv.
 
   Theorem all_released sched :
     fresh_sched sched (init w0) ->
-    let st := run true true n choose more finish pre start can_sign sched (init w0) in
+    let st := run true true n choose more finish pre start quits can_sign sched (init w0) in
     (forall b, b < n -> finished (ph (bs st b)) = true) ->
     reserved_ids (wal st) = [] /\
     ((forall b, b < n -> ph (bs st b) <> PDone Broadcast) -> wal st = w0).
@@ -428,14 +451,14 @@ Definition demo_wallet : wallet := [(mkU 1 500000 5 true true 1, false)].
 Definition demo_sched : list nat := [0; 0; 0; 1; 1; 1; 0; 0; 1; 1; 1; 0; 0; 0; 1; 1]%nat.
 
 Lemma lock_needed :
-  exists n choose more finish pre start can_sign w0 sched,
+  exists n choose more finish pre start quits can_sign w0 sched,
     (forall b, pre b = []) /\
     (forall b r l, NoDup (map uid l) -> incl (choose b r l) l /\ NoDup (map uid (choose b r l))) /\
     NoDup (map (fun e : utxo * bool => uid (fst e)) w0) /\ (forall e, In e w0 -> snd e = false) /\
-    let st := run false true n choose more finish pre start can_sign sched (init w0) in
+    let st := run false true n choose more finish pre start quits can_sign sched (init w0) in
     exists i, In i (held_ids st 0) /\ In i (held_ids st 1).
 Proof.
-  exists 2%nat, first_one, (fun _ _ _ => false), (fun _ => false), (fun _ => []), (fun _ => true), (fun _ _ => true), demo_wallet, demo_sched.
+  exists 2%nat, first_one, (fun _ _ _ => false), (fun _ => false), (fun _ => []), (fun _ => true), (fun _ _ => false), (fun _ _ => true), demo_wallet, demo_sched.
   split; [reflexivity|]. split; [exact first_one_ok|]. split; [repeat constructor; intros []|].
   split; [intros e [<-|[]]; reflexivity|].
   exists 1%N. vm_compute. split; left; reflexivity.
@@ -443,7 +466,7 @@ Qed.
 
 (* with the lock the same schedule keeps the builds apart *)
 Lemma demo_with_lock :
-  let st := run true true 2 first_one (fun _ _ _ => false) (fun _ => false) (fun _ => []) (fun _ => true) (fun _ _ => true) demo_sched (init demo_wallet) in
+  let st := run true true 2 first_one (fun _ _ _ => false) (fun _ => false) (fun _ => []) (fun _ => true) (fun _ _ => false) (fun _ _ => true) demo_sched (init demo_wallet) in
   held_ids st 0 = [1%N] /\ held_ids st 1 = [] /\ lock st = Some 1%nat.
 Proof. vm_compute. repeat split. Qed.
 
@@ -465,11 +488,11 @@ Section WithC03.
     split; auto.
   Qed.
 
-  Theorem exclusive_c03 n more finish pre start can_sign w0 :
+  Theorem exclusive_c03 n more finish pre start quits can_sign w0 :
     (forall b, NoDup (map uid (pre b))) ->
     NoDup (ids_of w0) -> (forall e, In e w0 -> snd e = false) -> forall sched,
-    fresh_sched n (c03_choose fpb shuffle strat amount) more finish pre start can_sign sched (init w0) ->
-    let st := run true true n (c03_choose fpb shuffle strat amount) more finish pre start can_sign sched (init w0) in
+    fresh_sched n (c03_choose fpb shuffle strat amount) more finish pre start quits can_sign sched (init w0) ->
+    let st := run true true n (c03_choose fpb shuffle strat amount) more finish pre start quits can_sign sched (init w0) in
     (forall b1 b2 i, b1 <> b2 -> In i (held_ids st b1) -> In i (held_ids st b2) -> False) /\
     (forall b, NoDup (held_ids st b)) /\
     (forall i, In i (reserved_ids (wal st)) <-> exists b, b < n /\ In i (held_ids st b)) /\
@@ -479,10 +502,10 @@ End WithC03.
 
 (* a build that is funded and then fails while signing: its inputs are released again *)
 Lemma demo_sign_fails :
-  let st := run true true 1 first_one (fun _ _ _ => false) (fun _ => false) (fun _ => []) (fun _ => true) (fun _ _ => false)
+  let st := run true true 1 first_one (fun _ _ _ => false) (fun _ => false) (fun _ => []) (fun _ => true) (fun _ _ => false) (fun _ _ => false)
                 [0; 0; 0; 0; 0; 0; 0; 0; 0]%nat (init demo_wallet) in
   ph (bs st 0%nat) = PDone Failed /\ reserved_ids (wal st) = [] /\ wal st = demo_wallet /\
-  (let st5 := run true true 1 first_one (fun _ _ _ => false) (fun _ => false) (fun _ => []) (fun _ => true) (fun _ _ => false)
+  (let st5 := run true true 1 first_one (fun _ _ _ => false) (fun _ => false) (fun _ => []) (fun _ => true) (fun _ _ => false) (fun _ _ => false)
                   [0; 0; 0; 0; 0; 0; 0; 0]%nat (init demo_wallet) in
    ph (bs st5 0%nat) = PAbort /\ held_ids st5 0%nat = [1%N]).
 Proof. vm_compute. repeat split. Qed.
@@ -496,13 +519,13 @@ Definition race_pre (b : nat) : list utxo := if Nat.eqb b 1 then [mkU 1 500000 5
 Definition race_sched : list nat := [0; 0; 0; 0; 0; 1; 1; 0; 0]%nat.
 Lemma prechosen_race_old_refuted :
   let st := run true false 2 first_one (fun _ _ _ => false) (fun _ => false) race_pre (fun b => Nat.eqb b 0)
-                (fun _ _ => true) race_sched (init demo_wallet) in
+                (fun _ _ => false) (fun _ _ => true) race_sched (init demo_wallet) in
   held_ids st 0%nat = [1%N] /\ held_ids st 1%nat = [1%N].
 Proof. vm_compute. repeat split. Qed.
 (* the repaired code on the same schedule: build 1 has to wait for the lock, build 0 gets the output alone *)
 Lemma prechosen_race_repaired :
   let st := run true true 2 first_one (fun _ _ _ => false) (fun _ => false) race_pre (fun b => Nat.eqb b 0)
-                (fun _ _ => true) race_sched (init demo_wallet) in
+                (fun _ _ => false) (fun _ _ => true) race_sched (init demo_wallet) in
   held_ids st 0%nat = [1%N] /\ held_ids st 1%nat = [] /\ ph (bs st 1%nat) = PPreLock.
 Proof. vm_compute. repeat split. Qed.
 
@@ -510,7 +533,7 @@ Proof. vm_compute. repeat split. Qed.
    are released when it is abandoned *)
 Lemma prechosen_sweep :
   let run_ s := run true true 1 first_one (fun _ _ _ => false) (fun _ => false)
-                (fun _ => [mkU 1 500000 5 true true 1]) (fun _ => false) (fun _ _ => true) s (init demo_wallet) in
+                (fun _ => [mkU 1 500000 5 true true 1]) (fun _ => false) (fun _ _ => false) (fun _ _ => true) s (init demo_wallet) in
   held_ids (run_ [0; 0; 0]%nat) 0%nat = [1%N] /\ reserved_ids (wal (run_ [0; 0; 0]%nat)) = [1%N] /\
   ph (bs (run_ [0; 0; 0; 0]%nat) 0%nat) = PDone Released /\ wal (run_ [0; 0; 0; 0]%nat) = demo_wallet.
 Proof. vm_compute. repeat split. Qed.
@@ -519,18 +542,29 @@ Proof. vm_compute. repeat split. Qed.
 (* once a build has been abandoned (released), has failed or has been broadcast, none of its steps changes the
    wallet, the lock or any build: a released transaction is not sent later, a failed send (Finish with
    finish = false) has released its inputs *)
-Lemma done_is_final use_lock lock_pre n choose more finish pre start can_sign st b :
+Lemma done_is_final use_lock lock_pre n choose more finish pre start quits can_sign st b :
   finished (ph (bs st b)) = true ->
-  step use_lock lock_pre n choose more finish pre start can_sign st b = st.
+  step use_lock lock_pre n choose more finish pre start quits can_sign st b = st.
 Proof.
   intro H. unfold step. destruct (n <=? b); [reflexivity|].
   destruct (ph (bs st b)); try discriminate. reflexivity.
 Qed.
-Lemma failed_send_releases use_lock lock_pre n choose more finish pre start can_sign st b :
-  b < n -> ph (bs st b) = PFinish -> finish b = false ->
-  let st' := step use_lock lock_pre n choose more finish pre start can_sign st b in
+Lemma failed_send_releases use_lock lock_pre n choose more finish pre start quits can_sign st b :
+  b < n -> ph (bs st b) = PFinish -> quits b (rnd (bs st b)) = false -> finish b = false ->
+  let st' := step use_lock lock_pre n choose more finish pre start quits can_sign st b in
   wal st' = release (map uid (held (bs st b))) (wal st) /\ ph (bs st' b) = PDone Released /\ held (bs st' b) = [].
 Proof.
-  intros Hb P F. unfold step. apply Nat.leb_gt in Hb. rewrite Hb, P, F. simpl.
+  intros Hb P Q F. unfold step. apply Nat.leb_gt in Hb. rewrite Hb, P, Q, F. simpl.
   unfold upd. rewrite Nat.eqb_refl. simpl. repeat split.
 Qed.
+
+(* a build cancelled while it waits for the lock of its first round, and one cancelled after funding: both end
+   Failed with everything released *)
+Lemma demo_cancelled :
+  let run_ q s := run true true 1 first_one (fun _ _ _ => false) (fun _ => false) (fun _ => []) (fun _ => true) q
+                      (fun _ _ => true) s (init demo_wallet) in
+  ph (bs (run_ (fun _ r => Nat.eqb r 0) [0; 0; 0; 0; 0]%nat) 0%nat) = PDone Failed /\
+  ph (bs (run_ (fun _ r => Nat.eqb r 1) [0; 0; 0; 0; 0; 0; 0; 0; 0]%nat) 0%nat) = PAbort /\
+  held_ids (run_ (fun _ r => Nat.eqb r 1) [0; 0; 0; 0; 0; 0; 0; 0; 0]%nat) 0%nat = [1%N] /\
+  wal (run_ (fun _ r => Nat.eqb r 1) [0; 0; 0; 0; 0; 0; 0; 0; 0; 0]%nat) = demo_wallet.
+Proof. vm_compute. repeat split. Qed.
